@@ -83,17 +83,19 @@ def analyse(facts):
 
 
 def rest_tested(f, rest):
+    import restlogic
+    base = lambda c: _is_rest_empty(c, rest)
     for n in walk(f["body"]):
         k = n.get("k")
         if k == "If":
             cond = n["cond"]
-            # F1: if rest.is_empty() { .. }
-            if _is_empty_of(cond, rest, negated=False):
+            # F1: if rest.is_empty() [&& ..] { .. }
+            if restlogic.true_implies(cond, base):
                 return "F1: result used under `if rest.is_empty()`"
-            # F2: if !rest.is_empty() { return Err }
-            if _is_empty_of(cond, rest, negated=True) and any(m.get("k") == "Ret" for m in walk(n["then"])):
+            # F2: if !rest.is_empty() [|| ..] { return Err }
+            if restlogic.false_implies(cond, base) and restlogic.always_leaves(n["then"]):
                 return "F2: `if !rest.is_empty() { return Err(..) }`"
-            if _is_empty_of(cond, rest, negated=True) and "else" in n and _tail_is_err(n["then"]):
+            if restlogic.false_implies(cond, base) and "else" in n and _tail_is_err(n["then"]):
                 return "F2: `if !rest.is_empty() { Err(..) } else { .. }`"
         if k == "Call" and str(n["f"].get("path", "")).endswith("::Ok") and n["args"]:
             a = n["args"][0]
@@ -101,9 +103,8 @@ def rest_tested(f, rest):
             if a.get("k") == "Tup" and any(root_local(x) == rest for x in a["es"]):
                 return "F3: rest returned to the caller"
             # F4: Ok(rest.is_empty() && ..)
-            for m in walk(a):
-                if m.get("k") == "MethodCall" and m["m"] == "is_empty" and root_local(m["recv"]) == rest:
-                    return "F4: Ok(rest.is_empty() ..)"
+            if restlogic.true_implies(a, base):
+                return "F4: Ok(rest.is_empty() ..)"
     return None
 
 
@@ -117,17 +118,7 @@ def _tail_is_err(e):
 TRIMS = ("trim", "trim_start", "trim_end", "trim_start_matches", "trim_end_matches", "trim_matches")
 
 
-def _is_empty_of(cond, rest, negated):
-    c = cond
-    if c.get("k") == "Unary" and c.get("op") == "!":
-        if not negated:
-            return False
-        c = c["a"]
-    elif negated:
-        return False
-    elif c.get("k") == "Binary" and c.get("op") == "&&":
-        # F1': `rest.is_empty() && more` - the guarded branch is entered only with an empty rest
-        return _is_empty_of(c["a"], rest, False) or _is_empty_of(c["b"], rest, False)
+def _is_rest_empty(c, rest):
     if not (c.get("k") == "MethodCall" and c["m"] == "is_empty"):
         return False
     r = c["recv"]
@@ -136,6 +127,12 @@ def _is_empty_of(cond, rest, negated):
     if r.get("k") == "MethodCall" and r["m"] in TRIMS and root_local(r["recv"]) == rest:
         return _is_empty_of.allow_trim
     return root_local(r) == rest
+
+
+def _is_empty_of(cond, rest, negated):
+    import restlogic
+    base = lambda c: _is_rest_empty(c, rest)
+    return restlogic.false_implies(cond, base) if negated else restlogic.true_implies(cond, base)
 
 
 _is_empty_of.allow_trim = False
